@@ -10,9 +10,9 @@ PROPERTY_FILE = "Properties/C14.v"
 GEN_DEPS = ["GenPairing"]
 RULE = ("cases: exhaustive small ranges + boundary families m^2-1,m^2,m^2+1 (m up to 2^31), m^3+-1, random 60-bit values, "
         "interval shapes L,R in [1,40] with shuffled call orders, size tuples of length 1-4; real Domain/StatesManager objects on 16 "
-        "1-d shapes and 16 n-d grids (d = 2,3; centred, off-centre and edge origins; unequal axes) x {Szudzik, Rosenberg-Strong} x "
+        "1-d shapes (+ 6 with the origin on an edge of the grid, L = 0 or R = 0) and 16 n-d grids (d = 2,3; centred, off-centre and edge origins; unequal axes) x {Szudzik, Rosenberg-Strong} x "
         "{no, rectangle, simplex, small simplex, MyBoundary} boundaries, on each of them every position of the frontier deque drawn on exhaustion "
-        "(np.random.choice scripted) + one protocol history with draws and restarts; a_n on 0..599, around squares, random < 2e6 and m^2-1 above 2^52; "
+        "(np.random.choice scripted; every drawn state compared with the model's fd_state over the model's deque, its class and recorded cause and the boolean hypotheses of the admissibility theorems evaluated in Coq) + one protocol history with draws and restarts; a_n on 0..599, around squares, random < 2e6 and m^2-1 above 2^52; "
         "upper_bound_a_n on 0..259, block edges a_n(m)-1, a_n(m), a_n(m)+1 and random z < 3e5 with the recorded float guesses; hyperbolic pairing2d/projection2d "
         "against the model with sympy's factorisation as data (0-6 distinct primes, primality of the bases re-checked in Coq); is_prime_b against sympy.isprime on 0..699 + large values; "
         "the bracket of upper_bound_a_n for EVERY z <= 16000 (quick) / 100000 (thorough) as one generated Coq theorem; "
@@ -30,10 +30,12 @@ MODELLED = ["PairingToZ1d.__init__ dispatch, PairingToZd glue (d = 2 pair form a
             "(NotImplementedError): oracle only (the exact iroot of the model is too slow by vm_compute at that size)",
             "HyperbolicPairing (Model/Hyperbolic.v): upper_bound_a_n = bracket selection + bisection with the three float guesses of inv_guess_a "
             "(scipy Halley root finder) as inputs; pairing2d / projection2d with sympy.factorint's result as an input that the model checks (fact_of: "
-            "increasing primes, positive exponents, product = n); sympy.multiplicity by repeated division; the float division "
+            "increasing bases > 1, positive exponents, product = n -- NO primality, e.g. [(4,1);(15,1)] passes for 60; primality is the separate check fact_primes); sympy.multiplicity by repeated division; the float division "
             "floor((z - a_n(n-1)) / prod) of projection2d as integer division (exact below 2^53); np.prod as an unbounded product; "
             "inv_guess_a and factorint themselves are NOT modelled: factorint's result is verified inside Coq (fact_of, and fact_primes of Model/HyperbolicPrimes.v: "
             "trial-division primality of every base, itself compared with sympy.isprime), inv_guess_a's three guesses are recorded from the real function",
+            "boolean forms of the hypotheses of the frontier-draw theorems and the class / recorded cause of a drawn state (Model/FrontierDrawCheck.v: fd_hyp_nd, fd_hyp_1d, "
+            "draw_class, fd_known_cause_*): evaluated by vm_compute for every real object and for every violation matches_known() is asked about",
             "functools.cache/lru_cache: modelled as identity on pure functions"]
 ASSUMPTIONS = ["Python int is unbounded (Z); math.isqrt is the integer square root (Z.sqrt)"]
 THEOREM_NOTES = {
@@ -44,14 +46,18 @@ THEOREM_NOTES = {
     "C14_zdn*": "PairingToZd for every dimension over Rosenberg-Strong (d >= 1) and nested Szudzik (d >= 2), omit_zero True and False, both directions; C14_nested_* hold for ANY 2-d bijection (Cantor.projection raises for dim != 2 in the code)",
     "C14_a_n_divisor_summatory": "a_n with the integer square root (the repaired code, fix 21d4376; finding F-C14-7 for the float sqrt) equals sum_{k<=n} floor(n/k); HyperbolicPairing beyond a_n: C14_upper_bound_*, C14_a_n_block_* and C14_hyperbolic_*",
     "C14_frontier_entries / C14_frontier_draw_char": "exact content of the deque Domain.compute_total_number_of_states_and_frontier returns (n-d, any domain predicate, any pairing that is a bijection): per line of the box the FIRST and LAST in-domain state, or -- whole line outside the domain -- the state of the line at the last axis' origin (fr_axis: an out-of-domain state, defect F-C14-8); a draw returns exactly that state since project inverts pair on every state, the origin (index -1) included",
-    "C14_frontier_draw_{szudzik_nd,rs_nd,factory,z1d}": "admissible (in grid, in domain, not the origin) frontier state for EVERY position c, under: every line meets the domain + the origin has in-domain states on both sides of its line (hypotheses evaluated on the implementation by matches_known); unconditional for the factory's Boundary() with 0 < o < last_size - 1; 'frontier' is the code's notion (first/last in-domain state along the LAST axis only); 1-d: the deque is [pair R; pair(-L)] whatever the boundary (ends outside the domain come back: F-C14-8)",
-    "C14_fd_protocol": "the draw consumes c only on exhausted calls and leaves (_last_projected_index, _last_logged_index) as sm_step_index leaves them (model: by construction; code: pinned by the fdraw* correspondence of the machine state after every call), so C14_sm_protocol lifts: after any number of exhausted calls and draws the call with rank x still returns the x-th admissible state: the enumeration stays a bijection",
-    "C14_frontier_draw_{origin,outside}_refuted": "F-C14-8 on the faithful model (code as is): RectangleBoundary([(-2,2),(-.5,.5)]) on a 5x5 grid, position 4 -> the origin; SimplexBoundary([(-1,1),(-1,1)]), position 0 -> (2,0) outside the domain; the oracle reports both kinds on real objects",
+    "C14_frontier_draw_{szudzik_nd,rs_nd,factory,z1d}": "admissible (in grid, in domain, not the origin) frontier state for EVERY position c, under: every line meets the domain + the origin has in-domain states on both sides of its line; unconditional for the factory's Boundary() with 0 < o < last_size - 1 (an origin on the edge of the last axis is OUTSIDE the theorem and the draw then returns the origin: C14_frontier_draw_edge_origin_refuted); 'frontier' is the code's notion (first/last in-domain state along the LAST axis only); 1-d: the deque is [pair R; pair(-L)] whatever the boundary (ends outside the domain come back: F-C14-8)",
+    "C14_frontier_draw_checked / _z1d_checked": "wave 7 (audit4 table: the two hypotheses were evaluated only inside matches_known): the hypotheses as ONE boolean of the model (fd_hyp_nd / fd_hyp_1d, reflection lemmas lines_meet_b_spec, origin_interior_b_spec); where it evaluates to true every position of the real deque draws a state of class 0. The fdstate1d / fdstatend correspondence evaluates it for every real object, compares it with the value computed from the implementation's Domain.outside, compares the model's fd_state with the implementation's draw at EVERY position, and requires every inadmissible draw to be of a recorded class for its recorded cause (fd_known_cause_*)",
+    "C14_fd_protocol_spec": "RELABELLED (audit4 B8: definitional): fd_step hands sm_step_index's machine state through, so C14_sm_protocol lifts by map fst -- true by construction of the model, with a FREE deque (empty or unrelated deques are instances; the default -1 of nth would be read). Kept only as the lemma the real-deque theorems are built on. That the CODE's draw does not touch (_last_projected_index, _last_logged_index) is a tested fact (fd_lasts in the fdraw1d / fdrawnd correspondence after every call), not a theorem",
+    "C14_fd_protocol_{nd,szudzik_nd,rs_nd,z1d}": "the protocol with draws over the REAL deque: frontier = snd (dom_nd ..) / snd (dom_1d ..), maxf = dom_maxf of the same result, outside = StatesManager.is_outside of the same box and domain; hypotheses: InversionMethod's protocol and every scripted position c < len(deque) (np.random.choice returns an element; on an empty deque it raises -- the n-d deque is proved non-empty, the 1-d one has length 2). Conclusion per call: (x-th admissible state, False) with is_outside false, or (state of deque entry c, True) where that state satisfies draw_char = the conclusion of C14_frontier_draw_char (first / last in-domain state of a line, or the last-axis-origin state of a line wholly outside the domain); 1-d: R for c = 0, -L for c = 1. A composition of C14_sm_protocol, C14_frontier_length, C14_frontier_draw_char, C14_frontier_draw_z1d; 1-d needs the interior origin 0 < o < n - 1 (edge origins: refuted, see below)",
+    "C14_fd_state_default_irrelevant": "audit4 B8, C02's copy of the draw: Model/InversionFrontier.v (C02's file) defines frontier_state c = proj (nth c fr 0), C14's fd_state reads nth c fr (-1). The default is read only for c >= len(deque), which np.random.choice cannot produce; on every position of the deque the two definitions are the same function (this theorem, any default). Not aligned textually because the file belongs to C02; the index -1 is the natural default here (project(-1) is the origin for omit_zero pairings, the worst case)",
+    "C14_frontier_draw_{origin,outside,edge_origin}_refuted": "F-C14-8 on the faithful model (code as is): RectangleBoundary([(-2,2),(-.5,.5)]) on a 5x5 grid, position 4 -> the origin; SimplexBoundary([(-1,1),(-1,1)]), position 0 -> (2,0) outside the domain; and WITHOUT any custom Domain (audit4 D1): the default Boundary() on a grid whose origin is on the edge of the (last) axis -- 1-d, 5 points, origin index 0, position 1 and 2-d 4x4, origin index 0, position 7 return the origin. Such grids come only from the public constructor CTMCGrid(origin_coordinate=0) (samplingfactory has a left == 0 branch for them), no library grid builder makes them; the oracle reports all three kinds on real objects, each with its cause; the sentence 'not reachable through the factory' of the recorded text of F-C14-8 is true only for interior origins (correction of the text proposed to the integrator)",
     "C14_upper_bound_a_n_spec / _unique": "conditional on the validity of the bracket selected from the float guesses (0 <= n_guess; a_n(n_low) <= z if a_n(n_guess) > z; z < a_n(n_high) if a_n(n_guess) < z): NOT proved for all z (Halley iteration in floating point; asymptotically the bracket width 3 z^(1/4) is the conjectured, unproved, order of the Dirichlet divisor error); certified for every z <= N per run (C14_ub_table_spec) and validated on the implementation's guesses for every other z visited (histogram upper_bound_bracket_valid); numbers.py:58 (z == 0) is the first branch of the model",
-    "C14_hyperbolic_offset_{decode,encode}": "the mixed-radix code (pairing2d's offset <-> projection2d's x_exponents) is a bijection between exponent vectors r_i <= e_i and [0, prod(1+e_i)) (formerly named _partial: they are now steps of the full round trip below)",
+    "C14_mixed_radix_{decode,encode}": "audit4 B9: these were C14_hyperbolic_offset_{decode,encode} (earlier _partial) with a phantom n (used only in fact_of fact n) and a fact used only through its radices 1 + e_i; they hold for ANY positive radices and say nothing about the pairing. Restated as what they are: the generic mixed-radix bijection between the box and [0, prod m_i) (lazy_tuple inverts mixed_encode and conversely)",
+    "C14_hyperbolic_offset_of_pairing": "the statement that IS about the pairing: for a factorisation passing fact_of AND fact_primes, pairing2d(x, y) = a_n(n-1) + mixed-radix code of the exponent vector of x+1, 0 <= code < a_n(n) - a_n(n-1), and projection2d's x_exponents decode it to that vector ((0,0) is the code's special case). Example C14_hyp_offset_needs_primes: fact_of alone accepts [(4,1);(15,1)] and [(60,1)] for 60 and the three accepted lists give the offsets 5, 1, 0 for (11,4): every theorem that mentions hyp_pairing2d / hyp_projection2d / fprod carries fact_primes",
     "C14_divisor_exponent_vector / C14_exponent_vector_unique / C14_multiplicity_spec": "unique factorisation as HyperbolicPairing uses it, for a factorisation that passes the model's checks fact_of (increasing bases > 1, positive exponents, product n) AND fact_primes (every base prime by trial division, C14_is_prime_b_sound): every positive divisor of n is prod p_i^r_i for a vector of the box (Gauss / Euclid via Znumtheory), and sympy.multiplicity (repeated division, model multiplicity) reads the vector back, so distinct vectors give distinct divisors",
     "C14_a_n_block_is_divisor_count / C14_a_n_block_size": "a_n(n) - a_n(n-1) = number of divisors of n (from a_n = divisor summatory function) = prod (1 + e_i): the block of n has exactly as many indices as the offset code has values",
-    "C14_hyperbolic_{pairing_in_block,proj_pair,pair_proj}": "FULL round trip of HyperbolicPairing on the model, both directions, all x, y, z >= 0: projection2d(pairing2d(x,y)) = (x,y) with upper_bound_a_n returning (x+1)(y+1), and pairing2d(projection2d(z)) = z with non-negative components; hypotheses: the factorisation handed in passes fact_of and fact_primes (sympy.factorint is data, verified inside Coq for every case of the correspondence) and the bracket of upper_bound_a_n is valid (ub_bracket_ok: the float root finder inv_guess_a is not modelled; certified per run for EVERY z <= N by the generated theorem impl_bracket_valid, see C14_ub_table_spec). Float caveat of the code not in the model: floor((z - a_n(n-1)) / np.prod(...)) is a float division, exact below 2^53",
+    "C14_hyperbolic_{pairing_in_block,proj_pair,pair_proj}": "FULL round trip of HyperbolicPairing on the model, both directions, all x, y, z >= 0 (no statement about the pairing holds for arbitrary radices: all carry fact_of and fact_primes): projection2d(pairing2d(x,y)) = (x,y) with upper_bound_a_n returning (x+1)(y+1), and pairing2d(projection2d(z)) = z with non-negative components; hypotheses: the factorisation handed in passes fact_of and fact_primes (sympy.factorint is data, verified inside Coq for every case of the correspondence) and the bracket of upper_bound_a_n is valid (ub_bracket_ok: the float root finder inv_guess_a is not modelled; certified per run for EVERY z <= N by the generated theorem impl_bracket_valid, see C14_ub_table_spec). Float caveat of the code not in the model: floor((z - a_n(n-1)) / np.prod(...)) is a float division, exact below 2^53",
     "C14_ub_table_spec": "lifting lemma for the certified sweep: a table of (z, n_low, n_guess, n_high) rows whose z column is exactly 0..N and whose rows all pass the boolean bracket test gives, for EVERY z in [0, N], a valid bracket and hence upper_bound_a_n(z) = the n with a_n(n-1) <= z < a_n(n).  Each run instantiates it with the guesses recorded from the implementation's inv_guess_a for all z <= N (N = 16000 quick / 100000 thorough; file build/C14/ubsweep.v, theorem impl_bracket_valid, closed under the global context): a for-all statement on a finite range about THIS machine's scipy/libm, not a theorem about the Halley iteration",
     "C14_pepis_kalmar_*": "pk_pairing2d is generated from the source; pk_projection2d (recursive _aux_k/_aux_j) is the hand model of Model/Pairing.v, tied by correspondence",
 }
@@ -80,6 +86,7 @@ def correspond(res):
     from rpylib.tools.generic import lazy_indices_product
     rng = random.Random(res.seed)
     tier = res.tier
+    del _F8_PENDING[:]
     zs = _boundary_values(rng, tier)
     xys = [(x, y) for x in range(25) for y in range(25)]
     big = [2 ** 26, 2 ** 27 - 1, 2 ** 27, 2 ** 31 - 1, 94906265, 94906266, 3037000499, 3037000500]
@@ -312,7 +319,7 @@ def correspond(res):
     _coverage_holes(res, rng, viol)
 
     # ---------- Coq side: the model must compute exactly what the implementation returned -----
-    header = ("From Coq Require Import ZArith List Bool.\nFrom RV Require Import Gen.GenPairing Model.Pairing Model.StatesManager Model.Domain Model.FrontierDraw Model.Hyperbolic Model.HyperbolicPrimes Proofs.C14_StatesManager.\nOpen Scope Z_scope.\n"
+    header = ("From Coq Require Import ZArith List Bool.\nFrom RV Require Import Gen.GenPairing Model.Pairing Model.StatesManager Model.Domain Model.FrontierDraw Model.FrontierDrawCheck Model.Hyperbolic Model.HyperbolicPrimes Proofs.C14_StatesManager.\nOpen Scope Z_scope.\n"
               "Fixpoint sm_lasts (o : Z -> bool) (maxf : Z) (st : Z * Z) (cs : list (Z*Z)) : list (Z * Z) := match cs with nil => nil | c :: r => "
               "let s := sm_step Z (fun i => i) o maxf st (fst c) (snd c) in snd s :: sm_lasts o maxf (snd s) r end.")
     res.case_lemmas += len(groups)
@@ -320,6 +327,16 @@ def correspond(res):
     for g, ty, chk, cases in groups:
         if bad[g]:
             res.broke(f"correspondence {g}", f"model and implementation differ on {len(bad[g])} case(s), first: {cases[bad[g][0]]}")
+        else:
+            res.case_ok += 1
+    # the F-C14-8 violations of this run, confirmed (or not) by the MODEL in one batch: matches_known() absorbs only confirmed ones
+    if _F8_PENDING:
+        res.case_lemmas += 1
+        _model_confirm(_F8_PENDING, "known_f8")
+        n_no = sum(1 for k, _, _ in _F8_PENDING if not _MODEL_VERDICT.get(k))
+        res.bump("frontier_draw_known_confirmed_by_model", f"{len(_F8_PENDING) - n_no} of {len(_F8_PENDING)}")
+        if n_no:
+            res.broke("F-C14-8 confirmation by the model", f"{n_no} inadmissible frontier draw(s) are not the model's fd_state / not of a recorded cause")
         else:
             res.case_ok += 1
 
@@ -580,12 +597,98 @@ def _call_with_choice(sm, x, ml, c):
     return _as_state(s), bool(done), bool(used)
 
 
-def _frontier_draws(res, rng, P, dim, sizes, o, pname, bname, boundary, K, fd_cases, viol):
+_F8_PENDING = []        # (key, dim, Coq case literal) of every F-C14-8 violation emitted in this run
+_MODEL_VERDICT = {}     # key -> does the MODEL confirm the draw and the recorded cause (Coq, fd_known_cause_*)?
+
+
+def _in_grid(sizes, o, s):
+    return len(s) == len(sizes) and all(0 <= o + v <= n - 1 for v, n in zip(s, sizes))
+
+
+def _impl_hypotheses(dim, sizes, o, dout):
+    """the hypotheses of the admissibility theorems evaluated with the IMPLEMENTATION's Domain.outside (dout on state
+    increments): n-d = fd_hyp_nd (0 <= o < last size, every line of the box meets the domain, the origin has in-domain
+    states on both sides of its line); 1-d = fd_hyp_1d (interior origin, both grid ends in the domain)"""
+    if dim == 1:
+        return 0 < o < sizes[0] - 1 and not dout((-o,)) and not dout((sizes[0] - o - 1,))
+    last = sizes[-1]
+    if not 0 <= o < last:
+        return False
+    lines = all(any(not dout(tuple(k - o for k in ks) + (j - o,)) for j in range(last))
+                for ks in itertools.product(*[range(n) for n in sizes[:-1]]))
+    z = tuple([0] * (dim - 1))
+    interior = any(not dout(z + (j - o,)) for j in range(0, o)) and any(not dout(z + (j - o,)) for j in range(o + 1, last))
+    return lines and interior
+
+
+def _f8_cause(dim, sizes, o, bname, s, dom_out):
+    """which recorded class of F-C14-8 an inadmissible IN-GRID draw belongs to (the Coq side re-derives it: fd_known_cause_*)"""
+    edge = o == 0 or o == sizes[-1] - 1
+    if not any(s):
+        return "edge-origin (Boundary())" if (bname == "none" and edge) else "origin is an end of the in-domain part of its line"
+    if dom_out:
+        return "grid end outside the domain (1-d)" if dim == 1 else "line wholly outside the domain"
+    return None
+
+
+def _f8_key(dim, sizes, o, pname, spec, c, s):
+    return json.dumps([dim, list(sizes), o, pname, spec.get("boundary"), spec.get("truncations"), spec.get("threshold"), c, list(s)])
+
+
+def _f8_literal(dim, sizes, o, pname, outs, c, s):
+    if dim == 1:
+        return f"({zlit(sizes[0])}, {zlit(o)}, {lst([zlit(v) for v in outs])}, {c}%nat, {zlit(s[0])})"
+    return (f"({0 if pname == 'rs' else 1}, {lst([zlit(v) for v in sizes])}, {zlit(o)}, {lst([lst([zlit(v) for v in x]) for x in outs])}, "
+            f"{c}%nat, {lst([zlit(v) for v in s])})")
+
+
+_F8_CHECK_1D = ("Z * Z * list Z * nat * Z",
+                "fun c => match c with (n, o, outs, pos, got) => "
+                "let dout := fun s => existsb (Z.eqb s) outs in let L := o in let R := n - o - 1 in "
+                "let r := dom_1d (z1d_pair (- L) R 1) n o in "
+                "(pos <? length (snd r))%nat && Z.eqb (fd_state Z (z1d_project (- L) R 1) (snd r) pos) got "
+                "&& fd_known_cause_1d n o dout got && negb (fd_hyp_1d n o dout) end")
+_F8_CHECK_ND = ("Z * list Z * Z * list (list Z) * nat * list Z",
+                "fun c => match c with (tag, sizes, o, outs, pos, got) => "
+                "let dout := fun s => existsb (zlist_eqb s) outs in "
+                "let npair := if tag =? 0 then rs_pairing else nest_pairing szudzik_pairing2d in "
+                "let nproj := if tag =? 0 then rs_projection else nest_projection szudzik_projection2d in "
+                "let r := dom_nd dout (zdn_pair npair 1) sizes o in "
+                "(pos <? length (snd r))%nat && zlist_eqb (fd_state (list Z) (zdn_project nproj (length sizes) 1) (snd r) pos) got "
+                "&& fd_known_cause_nd sizes o dout got && negb (fd_hyp_nd sizes o dout) end")
+_F8_HEADER = ("From Coq Require Import ZArith List Bool.\nFrom RV Require Import Gen.GenPairing Model.Pairing Model.StatesManager Model.Domain "
+              "Model.FrontierDraw Model.FrontierDrawCheck.\nOpen Scope Z_scope.")
+
+
+def _model_confirm(items, name):
+    """items: (key, dim, literal).  Asks the Coq model, for each: is the position inside the model's deque, does the model's
+    fd_state equal the recorded state, is that state of a recorded class FOR ITS RECORDED CAUSE (fd_known_cause_*), and does the
+    object lie outside the hypotheses of the admissibility theorems (fd_hyp_* = false)?  Stores the verdicts."""
+    one = [(k, lit) for k, dim, lit in items if dim == 1]
+    nd = [(k, lit) for k, dim, lit in items if dim != 1]
+    groups = []
+    if one:
+        groups.append(("f8_1d",) + _F8_CHECK_1D + ([lit for _, lit in one],))
+    if nd:
+        groups.append(("f8_nd",) + _F8_CHECK_ND + ([lit for _, lit in nd],))
+    if not groups:
+        return
+    bad = coq_bad_indices(PROP, name, _F8_HEADER, groups, timeout=600)
+    for g, ks in (("f8_1d", one), ("f8_nd", nd)):
+        for i, (k, _) in enumerate(ks):
+            _MODEL_VERDICT[k] = i not in set(bad.get(g, []))
+
+
+def _frontier_draws(res, rng, P, dim, sizes, o, pname, bname, boundary, K, fd_cases, viol, rejected=None, fs_cases=None):
     """(a) oracle on the implementation: every position of the frontier deque, drawn on exhaustion, must give an admissible
-    state (in the grid, in the domain, not the origin) -- F-C14-8 where it does not; one unscripted draw (real
-    np.random.choice) must return the state of some deque entry.  (b) a protocol history with exhausted calls, scripted
-    draws and restarts on a fresh object, recorded call by call for the correspondence with Model/FrontierDraw.v."""
+    state (in the grid, in the domain, not the origin) -- F-C14-8 where it does not AND the state is in the grid (a state
+    outside the GRID contradicts C14_frontier_draw_char and is reported without a finding id); one unscripted draw (real
+    np.random.choice) must return the state of some deque entry.  Every drawn state goes to the fdstate correspondence
+    (model's fd_state at every position of the model's deque, class and cause of every inadmissible one, value of the boolean
+    hypotheses).  (b) a protocol history with exhausted calls, scripted draws and restarts on a fresh object, recorded call by
+    call for the correspondence with Model/FrontierDraw.v."""
     import numpy as np
+    from rpylib.grid.grid import Coordinates
     grid, pairing, dom, sm = _build_sm(P, dim, sizes, o, pname, boundary)
     frontier = [int(v) for v in sm.frontier_states_indices]
     for x in range(K):
@@ -594,21 +697,43 @@ def _frontier_draws(res, rng, P, dim, sizes, o, pname, bname, boundary, K, fd_ca
     edge = o == 0 or o == sizes[-1] - 1
     spec = dict(boundary._c14_spec)
     reported = set()
+    rej = set(tuple(x) if hasattr(x, "__len__") else (x,) for x in (rejected or []))
+    drawn = []
     for c in range(len(frontier)):
         s, done, used = _call_with_choice(sm, K, -1, c)
         res.count(("fdraw", dim, tuple(sizes), o, pname, bname, c), kind=f"frontier draw {dim}d {bname}")
-        st = s if dim > 1 else s[0]
-        is_out = bool(sm.is_outside(st))
-        res.bump("frontier_draw", "origin" if s == zero else ("outside" if is_out else "admissible"))
+        drawn.append(s)
+        in_grid = _in_grid(sizes, o, s)
+        # out-of-GRID and out-of-DOMAIN are different failures: Domain.outside is only asked about states of the grid
+        dom_out = in_grid and bool(dom.outside(grid[Coordinates([o + v for v in s] if dim > 1 else o + s[0])]))
+        cls = "outside the grid" if not in_grid else ("origin" if s == zero else ("outside" if dom_out else "admissible"))
+        res.bump("frontier_draw", cls)
         if not done or not used:
             viol("StatesManager: a call after exhaustion does not signal exhaustion / does not draw from the frontier", kind="frontier-draw",
                  dim=dim, sizes=sizes, origin=o, pairing=pname, position=c, **spec)
-        elif (s == zero or is_out) and ("origin" if s == zero else "outside") not in reported:
-            reported.add("origin" if s == zero else "outside")          # one report per object and kind (every position is still drawn and histogrammed)
-            viol("StatesManager: the frontier draw on exhaustion returns the origin" if s == zero else
-                 "StatesManager: the frontier draw on exhaustion returns a state outside the domain",
-                 finding="F-C14-8", kind="frontier-draw", dim=dim, sizes=sizes, origin=o, pairing=pname, position=c, n_states=K,
-                 frontier=frontier, got=list(s), is_origin=s == zero, outside_domain=is_out, origin_on_edge=edge, **spec)
+        elif not in_grid:
+            viol("StatesManager: the frontier draw on exhaustion returns a state outside the GRID", kind="frontier-draw-out-of-grid",
+                 dim=dim, sizes=sizes, origin=o, pairing=pname, position=c, n_states=K, frontier=frontier, got=list(s), **spec)
+        elif cls in ("origin", "outside") and cls not in reported:
+            reported.add(cls)          # one report per object and kind (every position is still drawn, histogrammed and compared with the model)
+            cause = _f8_cause(dim, sizes, o, bname, s, dom_out)
+            res.bump("frontier_draw_known_cause", cause)
+            what = {"edge-origin (Boundary())": "StatesManager: the frontier draw on exhaustion returns the origin with the default Boundary() on a grid whose "
+                                                "origin is on the edge of the last axis (public CTMCGrid(origin_coordinate=0); audit4 D1)"}.get(
+                cause, "StatesManager: the frontier draw on exhaustion returns the origin" if s == zero else
+                "StatesManager: the frontier draw on exhaustion returns a state outside the domain")
+            viol(what, finding="F-C14-8", kind="frontier-draw", dim=dim, sizes=sizes, origin=o, pairing=pname, position=c, n_states=K,
+                 frontier=frontier, got=list(s), is_origin=s == zero, outside_domain=dom_out, origin_on_edge=edge, cause=cause, **spec)
+            if rejected is not None:
+                _F8_PENDING.append((_f8_key(dim, sizes, o, pname, spec, c, s), dim,
+                                    _f8_literal(dim, sizes, o, pname, [r if dim > 1 else r[0] for r in sorted(rej)], c, s)))
+    if fs_cases is not None and rejected is not None:
+        hyp = _impl_hypotheses(dim, sizes, o, lambda inc: tuple(inc) in rej)
+        res.bump("frontier_draw_hypotheses_hold", bool(hyp))
+        if hyp and any(s == zero or not _in_grid(sizes, o, s) or tuple(s) in rej for s in drawn):
+            viol("StatesManager: an inadmissible frontier draw on an object that meets the hypotheses of the admissibility theorems",
+                 kind="frontier-draw-under-hypotheses", dim=dim, sizes=sizes, origin=o, pairing=pname, **spec)
+        fs_cases.append((drawn, bool(hyp)))
     s_real, done = sm.project_index_to_state_increment(K)
     if _as_state(s_real) not in {_as_state(pairing.project(f)) for f in frontier} or not done:
         viol("StatesManager: the state returned on exhaustion is not the projection of an entry of frontier_states_indices", kind="frontier-draw",
@@ -671,10 +796,12 @@ def _states_manager(res, rng, viol, groups):
     from rpylib.distribution import pairing as P
     from rpylib.grid.grid import Coordinates
     from rpylib.grid.spatial import CTMCGrid
-    one_d, n_d, one_d_fd, n_d_fd = [], [], [], []
+    one_d, n_d, one_d_fd, n_d_fd, one_d_fs, n_d_fs = [], [], [], [], [], []
     np.random.seed(res.seed % 2 ** 32)
     # 1-d: interval shapes x boundaries
     shapes = [(rng.randrange(1, 8), rng.randrange(1, 8)) for _ in range(12)] + [(1, 1), (1, 5), (5, 1), (3, 3)]
+    # origin on an edge of the grid (L = 0 or R = 0): CTMCGrid(origin_coordinate=0) is public, samplingfactory has a `left == 0` branch (audit4 D1)
+    shapes += [(0, 4), (4, 0), (0, 1), (1, 0), (0, rng.randrange(2, 8)), (rng.randrange(2, 8), 0)]
     for (L, R) in shapes:
         n = L + R + 1
         for bname, boundary in _boundaries(P, rng, 1, [n], L):
@@ -686,16 +813,18 @@ def _states_manager(res, rng, viol, groups):
             frontier, msi = [int(v) for v in sm.frontier_states_indices], int(dom.max_state_index)
             got = _enumerate(sm, 10 * (L + R) + 10)
             res.count(("sm1d", L, R, bname), kind=f"StatesManager 1d {bname}")
+            res.bump("sm1d_origin", "edge" if L == 0 or R == 0 else "interior")
             res.bump("sm_boundary", bname)
             rejected = [k for k in range(-L, R + 1) if bool(dom.outside(grid[Coordinates(L + k)]))]
             want = set(range(-L, R + 1)) - {0} - set(rejected)
             if sorted(got) != sorted(want):
                 viol("StatesManager(1-d) does not return every in-grid, in-domain non-origin state exactly once before exhaustion",
                      kind="sm", L=L, R=R, boundary=bname, got=got, missing=sorted(want - set(got)), extra=sorted(set(got) - want))
-            fd1 = []
-            _frontier_draws(res, rng, P, 1, [n], L, "z1d", bname, boundary, len(got), fd1, viol)
+            fd1, fs1 = [], []
+            _frontier_draws(res, rng, P, 1, [n], L, "z1d", bname, boundary, len(got), fd1, viol, rejected=rejected, fs_cases=fs1)
             one_d.append((n, L, rejected, msi, frontier, got))
             one_d_fd.append((n, L, rejected) + fd1[0])
+            one_d_fs.append((n, L, rejected) + fs1[0])
     # n-d: centred / off-centre origin (also on the edge), equal / unequal axis lengths, both pairings the factory can choose
     grids = [(2, [5, 5], 2), (2, [7, 7], 3), (2, [7, 7], 4), (2, [7, 7], 1), (2, [5, 9], 2), (2, [9, 5], 2), (2, [4, 6], 1),
              (2, [3, 4], 1), (2, [6, 3], 2), (2, [4, 4], 0), (2, [5, 4], 3),
@@ -726,10 +855,11 @@ def _states_manager(res, rng, viol, groups):
                 if msi != max([int(pairing.pair(s)) for s in box if s not in set(rejected)] + [-1]):
                     viol("Domain.max_state_index is not the largest pairing index of an in-domain state", kind="dom", dim=dim, sizes=sizes,
                          origin=o, pairing=pname, boundary=bname, max_state_index=msi)
-                fdn = []
-                _frontier_draws(res, rng, P, dim, sizes, o, pname, bname, boundary, len(got), fdn, viol)
+                fdn, fsn = [], []
+                _frontier_draws(res, rng, P, dim, sizes, o, pname, bname, boundary, len(got), fdn, viol, rejected=rejected, fs_cases=fsn)
                 n_d.append((0 if pname == "rs" else 1, sizes, o, rejected, msi, frontier, got))
                 n_d_fd.append((0 if pname == "rs" else 1, sizes, o, rejected) + fdn[0])
+                n_d_fs.append((0 if pname == "rs" else 1, sizes, o, rejected) + fsn[0])
 
     def zl(xs):
         return lst([zlit(v) for v in xs])
@@ -751,6 +881,30 @@ def _states_manager(res, rng, viol, groups):
                    [f"({tag}, {zl(sizes)}, {zlit(o)}, {lst([zl(x) for x in outs])}, {zlit(msi)}, {zl(fr)}, {lst([zl(x) for x in states])})"
                     for tag, sizes, o, outs, msi, fr, states in n_d]))
 
+
+    # every position of the deque drawn on exhaustion (real objects) against the model's fd_state over the MODEL's deque; every inadmissible
+    # state must be of a recorded class of F-C14-8 for its recorded cause (fd_known_cause_*: never a state outside the grid, never an
+    # out-of-domain state on a line that meets the domain); the boolean hypotheses of the admissibility theorems evaluated by the model
+    # (fd_hyp_*, C14_frontier_draw_checked) against their value computed from the implementation's Domain.outside
+    groups.append(("fdstate1d", "Z * Z * list Z * list Z * bool",
+                   "fun c => match c with (n, o, outs, states, hyp) => "
+                   "let dout := fun s => existsb (Z.eqb s) outs in let L := o in let R := n - o - 1 in "
+                   "let r := dom_1d (z1d_pair (- L) R 1) n o in "
+                   "zlist_eqb (map (fd_state Z (z1d_project (- L) R 1) (snd r)) (seq 0 (length (snd r)))) states && "
+                   "forallb (fun s => (draw_class_1d n o dout s =? 0) || fd_known_cause_1d n o dout s) states && "
+                   "Bool.eqb (fd_hyp_1d n o dout) hyp && (negb hyp || forallb (fun s => draw_class_1d n o dout s =? 0) states) end",
+                   [f"({zlit(n)}, {zlit(o)}, {zl(outs)}, {zl([st[0] for st in states])}, {blit(hyp)})" for n, o, outs, states, hyp in one_d_fs]))
+    groups.append(("fdstatend", "Z * list Z * Z * list (list Z) * list (list Z) * bool",
+                   "fun c => match c with (tag, sizes, o, outs, states, hyp) => "
+                   "let dout := fun s => existsb (zlist_eqb s) outs in "
+                   "let npair := if tag =? 0 then rs_pairing else nest_pairing szudzik_pairing2d in "
+                   "let nproj := if tag =? 0 then rs_projection else nest_projection szudzik_projection2d in "
+                   "let r := dom_nd dout (zdn_pair npair 1) sizes o in "
+                   "list_eqb zlist_eqb (map (fd_state (list Z) (zdn_project nproj (length sizes) 1) (snd r)) (seq 0 (length (snd r)))) states && "
+                   "forallb (fun s => (draw_class sizes o dout s =? 0) || fd_known_cause_nd sizes o dout s) states && "
+                   "Bool.eqb (fd_hyp_nd sizes o dout) hyp && (negb hyp || forallb (fun s => draw_class sizes o dout s =? 0) states) end",
+                   [f"({tag}, {zl(sizes)}, {zlit(o)}, {lst([zl(x) for x in outs])}, {lst([zl(x) for x in states])}, {blit(hyp)})"
+                    for tag, sizes, o, outs, states, hyp in n_d_fs]))
 
     # the frontier draw: protocol histories with scripted np.random.choice positions against Model/FrontierDraw.v
     # (returned (state, flag) of every call and the machine state after it; deque, max_frontier_indices and the
@@ -826,10 +980,10 @@ def _reset_history(res, rng, viol):
 
 def _redraw(r):
     """re-run a recorded frontier draw on the implementation: rebuild the grid / boundary / StatesManager of the replay,
-    exhaust it, draw position r['position'].  Returns (state, outside the grid or domain?, do the hypotheses of the
-    admissibility theorems hold on this object?) -- the hypotheses are evaluated with the implementation's own
-    Domain.outside: every line of the box meets the domain and the origin has in-domain states on both sides of its line
-    (C14_frontier_draw_szudzik_nd / _rs_nd); 1-d: both ends of the grid are in the domain (C14_frontier_draw_z1d)"""
+    exhaust it, draw position r['position'].  Returns a dict: state, in the grid?, outside the domain? (asked only for a state
+    of the grid), the in-grid states Domain.outside rejects (the data the model's dom_outside is built from), the hypotheses of
+    the admissibility theorems evaluated with the implementation's own Domain.outside (_impl_hypotheses), did the call draw,
+    number of admissible states"""
     import itertools as it
     from rpylib.distribution import pairing as P
     from rpylib.grid.grid import Coordinates
@@ -838,43 +992,57 @@ def _redraw(r):
     grid, pairing, dom, sm = _build_sm(P, dim, sizes, o, r["pairing"], boundary)
     K = len(_enumerate(sm))
     s, done, used = _call_with_choice(sm, K, -1, r["position"])
-    is_out = bool(sm.is_outside(s if dim > 1 else s[0]))
 
     def dout(inc):
         return bool(dom.outside(grid[Coordinates([o + v for v in inc] if dim > 1 else o + inc[0])]))
-    if dim == 1:
-        hyp = not dout((-o,)) and not dout((sizes[0] - o - 1,)) and 0 < o < sizes[0] - 1
-    else:
-        last = sizes[-1]
-        lines = all(any(not dout(tuple(k - o for k in ks) + (j - o,)) for j in range(last))
-                    for ks in it.product(*[range(n) for n in sizes[:-1]]))
-        z = tuple([0] * (dim - 1))
-        interior = any(not dout(z + (j - o,)) for j in range(0, o)) and any(not dout(z + (j - o,)) for j in range(o + 1, last))
-        hyp = lines and interior and 0 <= o < last
-    return s, is_out, hyp, (done and used), K
+    box = list(it.product(*[range(-o, n - o) for n in sizes]))
+    outs = [x for x in box if dout(x)]
+    in_grid = _in_grid(sizes, o, s)
+    return {"state": s, "in_grid": in_grid, "dom_out": in_grid and dout(s), "outs": outs, "drew": bool(done and used), "K": K,
+            "hyp": _impl_hypotheses(dim, sizes, o, lambda inc: tuple(inc) in set(outs)), "n_frontier": len(sm.frontier_states_indices)}
 
 
 def matches_known(v, known):
-    """F-C14-8 (frontier draw returns the origin / a state outside the domain): a violation is the recorded one only if
-    every field is present, the draw re-run on the implementation gives the recorded inadmissible state, and the object
-    lies OUTSIDE the hypotheses of the admissibility theorems (a non-default boundary leaving a line without in-domain
-    state or the origin at an end of the in-domain part of its line; or the origin on the edge of the last axis).  An
-    inadmissible draw on an object that meets the hypotheses contradicts a theorem and is never absorbed."""
+    """F-C14-8 (frontier draw returns the origin / a state outside the domain).  A violation is the recorded one only if
+    (1) every field is present; (2) the draw RE-RUN on the implementation gives the recorded state, which is IN THE GRID (a state
+    outside the grid contradicts C14_frontier_draw_char: never absorbed) and is the origin or rejected by Domain.outside, with
+    the recorded flags, cause and number of states; (3) the object lies outside the hypotheses of the admissibility theorems
+    as evaluated on the implementation; (4) the Coq MODEL, fed with the box, the origin index and the states the
+    implementation's Domain.outside rejects, (a) has this position in its deque, (b) returns the same state (fd_state),
+    (c) finds it of a recorded class FOR THE RECORDED CAUSE -- the origin as first/last in-domain state of its line (incl.
+    Boundary() with the origin on the edge of the last axis) or on a line wholly outside the domain; an out-of-domain state at
+    the last axis' origin of a line wholly outside the domain; 1-d: a grid end that is outside the domain or is the origin --
+    (fd_known_cause_*), and (d) evaluates the theorems' hypotheses to false (fd_hyp_*).  Everything else is unlisted."""
     if known.get("id") != "F-C14-8":
         return False
     r = v.get("replay", {})
     need = ("kind", "dim", "sizes", "origin", "pairing", "position", "got", "boundary", "truncations", "threshold", "is_origin",
-            "outside_domain", "origin_on_edge", "n_states")
+            "outside_domain", "origin_on_edge", "n_states", "cause")
     if any(k not in r for k in need) or r["kind"] != "frontier-draw":
         return False
-    if not (r["is_origin"] or r["outside_domain"]):
+    if bool(r["is_origin"]) == bool(r["outside_domain"]) and not r["is_origin"]:
         return False
     try:
-        s, is_out, hyp, drew, K = _redraw(r)
+        d = _redraw(r)
+        s = d["state"]
+        dim, sizes, o = r["dim"], list(r["sizes"]), r["origin"]
+        if not (d["drew"] and d["in_grid"] and not d["hyp"] and list(s) == list(r["got"]) and d["K"] == r["n_states"]
+                and (not any(s)) == bool(r["is_origin"]) and d["dom_out"] == bool(r["outside_domain"])
+                and (not any(s) or d["dom_out"])
+                and bool(r["origin_on_edge"]) == (o == 0 or o == sizes[-1] - 1)
+                and r["cause"] == _f8_cause(dim, sizes, o, r["boundary"], s, d["dom_out"])
+                and 0 <= r["position"] < d["n_frontier"]):
+            return False
+        spec = {"boundary": r["boundary"], "truncations": r["truncations"], "threshold": r["threshold"]}
+        key = _f8_key(dim, sizes, o, r["pairing"], spec, r["position"], s)
+        if key not in _MODEL_VERDICT:                      # not one of this run's own violations: ask the model now
+            import hashlib
+            outs = [x if dim > 1 else x[0] for x in d["outs"]]
+            _model_confirm([(key, dim, _f8_literal(dim, sizes, o, r["pairing"], outs, r["position"], s))],
+                           "known_f8_" + hashlib.sha1(key.encode()).hexdigest()[:10])
+        return bool(_MODEL_VERDICT.get(key))
     except Exception:  # noqa
         return False
-    return (drew and not hyp and list(s) == list(r["got"]) and (not any(s)) == bool(r["is_origin"])
-            and is_out == bool(r["outside_domain"]) and K == r["n_states"])
 
 
 def _states_manager_machine(res, rng, groups):
@@ -957,15 +1125,17 @@ def replay(path):
         _reset_history(_R(), random.Random(0), lambda what, **kw: hits.append((what, kw)))
         print("restart protocol:", hits[0][1] if hits else "every call with rank x returned the x-th admissible state")
         return 1 if hits else 0
-    if k == "frontier-draw" and "position" in data and "boundary" in data:
-        s, is_out, hyp, drew, K = _redraw(data)
-        print("frontier draw at position", data["position"], "after", K, "states ->", list(s), "| origin:", not any(s),
-              "| outside grid/domain:", is_out, "| hypotheses of the admissibility theorems hold:", hyp)
-        return 1 if (not any(s) or is_out or not drew) else 0
+    if k in ("frontier-draw", "frontier-draw-out-of-grid") and "position" in data and "boundary" in data:
+        d = _redraw(data)
+        s = d["state"]
+        print("frontier draw at position", data["position"], "after", d["K"], "states ->", list(s), "| origin:", not any(s),
+              "| in the grid:", d["in_grid"], "| outside the domain:", d["dom_out"],
+              "| hypotheses of the admissibility theorems hold (implementation's Domain.outside):", d["hyp"])
+        return 1 if (not any(s) or not d["in_grid"] or d["dom_out"] or not d["drew"]) else 0
     print("replay: re-run ./check C14 to re-evaluate this class of input")
     return 1
 
-LEVEL_TEXT = ("Proof: 79 Coq theorems (closed under the global context, no axioms). The Cantor, Rosenberg-Strong (2-d and d-dimensional), Szudzik "
+LEVEL_TEXT = ("Proof: 88 Coq theorems (closed under the global context, no axioms). The Cantor, Rosenberg-Strong (2-d and d-dimensional), Szudzik "
               "and Pepis-Kalmar pairings and their projections are mutually inverse on all naturals; the generic nested pairing/projection "
               "for dim > 2 is a bijection for any 2-d bijection; the N<->Z maps, PairingToZd (every d, over Rosenberg-Strong and nested "
               "Szudzik, omit_zero True and False) and PairingToZ1d (every interval [-L,R], every index, hence every call order, omit_zero "
@@ -980,9 +1150,11 @@ LEVEL_TEXT = ("Proof: 79 Coq theorems (closed under the global context, no axiom
               "are hand-modelled and compared with the implementation by vm_compute on ~29k boundary and random cases, including real "
               "Domain/StatesManager objects (max_state_index, frontier deque, whole enumeration) under non-trivial boundaries. The frontier "
               "draw on exhaustion is inside the model (random position as an input): the deque is characterised entry by entry, every draw returns an "
-              "admissible frontier state for the factory's Boundary() with an interior origin (and under two stated hypotheses for any domain), the draw "
-              "leaves the enumeration's state alone (protocol theorem with draws); with other boundaries the draw returns the origin or an out-of-domain "
-              "state: refuted on the model, known finding F-C14-8. Hyperbolic pairing: a_n strictly increasing; upper_bound_a_n (bracket + bisection, "
+              "admissible frontier state for the factory's Boundary() with an interior origin (and under two stated hypotheses for any domain), the protocol "
+              "with draws is stated over the real deque / max_frontier_indices / is_outside of one Domain (non-empty deque, positions inside it): every call returns the x-th admissible state or a "
+              "characterised deque state (that the draw leaves the machine state alone is true of the model by construction and TESTED on the code after every call); the theorems' hypotheses are "
+              "booleans the model evaluates per object; with other boundaries, or the default boundary on a grid whose origin is on the edge of the last axis (public CTMCGrid only), the draw "
+              "returns the origin or an out-of-domain state: refuted on the model, known finding F-C14-8 (absorbed only when the model reproduces the draw and its recorded cause). Hyperbolic pairing: a_n strictly increasing; upper_bound_a_n (bracket + bisection, "
               "float guesses as inputs) returns the unique n with a_n(n-1) <= z < a_n(n) whenever the bracket is valid (validated per visited z); "
               "pairing2d/projection2d modelled with the factorisation as checked data (product, order, primality of the bases). The full round trip of the "
               "hyperbolic pairing is proved in both directions for all naturals: divisors of n <-> exponent vectors (unique factorisation), block size "
